@@ -74,6 +74,25 @@ def build_concrete(build, values):
     return {n: w.get() for n, w in outs.items()}
 
 
+def build_concrete2(build, values):
+    """like build_concrete, then a SECOND evaluation of the same instance with the inputs named <n>#2"""
+    with quiet():
+        s = py4hw.HWSystem()
+        ins, outs = build(s)
+        for n, w in ins.items():
+            w.put(values[n])
+        inw = set(id(w) for w in ins.values())
+        for w in symsim.all_wires(s):
+            k = 'pre:' + w.getFullPath()
+            if id(w) not in inw and k in values:
+                w.value = values[k] & ((1 << w.getWidth()) - 1)
+        sim = s.getSimulator()
+        for n, w in ins.items():
+            w.put(values[n + '#2'])
+        sim.propagateAll()
+    return {n: w.get() for n, w in outs.items()}
+
+
 def comb_task(p, cfg, rec):
     """cfg: {'build': f(sys)->(ins,outs), 'spec': f(V)->{out: z3 BV}, 'assume': f(V)->z3 Bool (optional)}"""
     build = cfg['build']
@@ -122,7 +141,7 @@ def comb_task(p, cfg, rec):
 
     try:
         with quiet():
-            s.getSimulator()
+            sim = s.getSimulator()
     except SymbolicPathError as e:
         # the real block raises for some input inside the stated domain
         p.prove('simulates-without-exception', z3.And(*e.pc) if e.pc else z3.BoolVal(True), inputs=VP,
@@ -148,3 +167,43 @@ def comb_task(p, cfg, rec):
                 canary=(got != z3.ZeroExt(1, o ^ 1)))
         p.res['transitions'] += 1
     p.validate_terms(terms, V, lambda values: build_concrete(build, values), n=2)
+    if cfg.get('reeval', True):
+        # second evaluation of the SAME instance with fresh inputs: a stateless block's outputs depend on its current inputs only,
+        # whatever it was given before (operand caches, remembered results, counters must not show through)
+        wv2 = symsim.poke_fresh(list(ins.values()), 'second_')
+        V2 = {n: wv2[w] for n, w in ins.items()}
+        if cfg.get('assume'):
+            p.assume(cfg['assume'](V2))
+        spec2 = cfg['spec'](V2)
+        VP2 = dict(VP)
+        VP2.update({n + '#2': v for n, v in V2.items()})
+
+        def mk_replay2(oname):
+            def replay(values):
+                try:
+                    got = build_concrete2(build, values)
+                except Exception as e:
+                    return {'exception': repr(e)}
+                exp = concrete(spec2[oname], V2, {n: values[n + '#2'] for n in V2})
+                if got[oname] == exp:
+                    return None
+                return {'output': oname, 'second evaluation': True, 'got': got[oname], 'expected': exp}
+            return replay
+        try:
+            with quiet():
+                sim.propagateAll()
+        except SymbolicPathError as e:
+            p.prove('second evaluation: simulates-without-exception', z3.And(*e.pc) if e.pc else z3.BoolVal(True), inputs=VP2,
+                    replay=lambda values: (lambda r: None if not (r and 'exception' in r) else r)(mk_replay2(next(iter(outs)))(values)))
+            return
+        for oname, w in outs.items():
+            rw = w.getWidth()
+            v = w.get()
+            got = core.to_term(v, rw + 1)
+            lo, hi = core._bounds(v)
+            viol = got != z3.ZeroExt(1, spec2[oname])
+            if not (lo >= 0 and hi < (1 << rw)):
+                viol = z3.Or(viol, core.as_z3_bool(v < 0), core.as_z3_bool(v >= (1 << rw)))
+            p.prove('%s after a second evaluation of the same instance with other inputs' % oname, viol, inputs=VP2, replay=mk_replay2(oname),
+                    quantities=cfg.get('quantities', lambda V: {})(V2))
+            p.res['transitions'] += 1
